@@ -6143,3 +6143,25 @@ pub fn verif_number_patterns(text: &str, block_separators: &str, decimal_separat
 		patterns.block_1digit_pattern.is_match(text),
 	];
 }
+
+// ---- verification hook (compiled only with --cfg mathcat_verif); see /verif/DESIGN.md §5 (H7)
+/// Run the first phase of `canonicalize` alone on a `<math>` string -- `trim_element`, `assure_mathml`, `clean_mathml`,
+/// `assure_nary_tag_has_one_child` -- and return the tree as it is *before* the rows are re-bracketed.
+#[cfg(mathcat_verif)]
+pub fn verif_clean_only(mathml_str: &str) -> Result<String> {
+	crate::speech::SPEECH_RULES.with(|rules| rules.borrow_mut().read_files())?;
+	let package = match sxd_document::parser::parse(mathml_str) {
+		Ok(package) => package,
+		Err(e) => bail!("Invalid MathML input: {}", e),
+	};
+	let mathml = crate::interface::get_element(&package);
+	if name(&mathml) != "math" {
+		bail!("verif_clean_only: the root element has to be 'math'");
+	}
+	crate::interface::trim_element(&mathml);
+	CanonicalizeContext::assure_mathml(mathml)?;
+	let context = CanonicalizeContext::new();
+	let mathml = context.clean_mathml(mathml).unwrap();	// 'math' is never removed
+	context.assure_nary_tag_has_one_child(mathml);
+	return Ok(mml_to_string(&mathml));
+}
